@@ -512,3 +512,21 @@ func isASCII(b []byte) bool {
 	}
 	return true
 }
+
+// FuzzC14ScanTiles: native coverage-guided fuzzing of the scanner; tiling and
+// the reference-tokenizer differential are checked inside the target.
+func FuzzC14ScanTiles(f *testing.F) {
+	for _, lx := range c14Lexemes {
+		f.Add([]byte(lx))
+		f.Add([]byte(lx + lx))
+	}
+	f.Add([]byte("a \n.b !== 1_000.5e-3 ?? 'it\\'s' ... \u00a0\u2028x"))
+	f.Fuzz(func(t *testing.T, data []byte) {
+		if len(data) > 65536 {
+			data = data[:65536]
+		}
+		if msg := checkLexDiff(data); msg != "" {
+			t.Fatalf("%s", msg)
+		}
+	})
+}
